@@ -335,3 +335,69 @@ fn c24_div_double_double() {
     kani::cover!(res.is_ok(), "a quotient");
     std::mem::forget((res, l, r));
 }
+
+// ---- totality over ALL heap-free variant pairs (symbolic discriminants): an operator applied
+// to any two scalar values returns a value or an error, never a panic.
+fn any_scalar13() -> SqlValue {
+    let k: u8 = kani::any();
+    kani::assume(k < 13);
+    match k {
+        0 => SqlValue::Null,
+        1 => SqlValue::Integer(kani::any()),
+        2 => SqlValue::Smallint(kani::any()),
+        3 => SqlValue::Bigint(kani::any()),
+        4 => SqlValue::Unsigned(kani::any()),
+        5 => SqlValue::Numeric(kani::any()),
+        6 => SqlValue::Float(kani::any()),
+        7 => SqlValue::Real(kani::any()),
+        8 => SqlValue::Double(kani::any()),
+        9 => SqlValue::Boolean(kani::any()),
+        10 => SqlValue::Date(vibesql_types::Date { year: kani::any(), month: kani::any(), day: kani::any() }),
+        11 => SqlValue::Time(vibesql_types::Time { hour: kani::any(), minute: kani::any(), second: kani::any(), nanosecond: kani::any() }),
+        _ => SqlValue::Timestamp(vibesql_types::Timestamp {
+            date: vibesql_types::Date { year: kani::any(), month: kani::any(), day: kani::any() },
+            time: vibesql_types::Time { hour: kani::any(), minute: kani::any(), second: kani::any(), nanosecond: kani::any() },
+        }),
+    }
+}
+
+pub fn format_stub(_args: core::fmt::Arguments<'_>) -> String {
+    String::new()
+}
+
+macro_rules! total_op {
+    ($name:ident, $op:expr) => {
+        #[kani::proof]
+        #[kani::unwind(8)]
+        #[kani::stub(std::fmt::format, format_stub)]
+        fn $name() {
+            let l = any_scalar13();
+            let r = any_scalar13();
+            let res = h::eval_binary_op(&l, &$op, &r, SqlMode::default());
+            kani::cover!(res.is_ok(), "a value");
+            kani::cover!(res.is_err(), "an error");
+            std::mem::forget((res, l, r));
+        }
+    };
+}
+total_op!(c24_total_divide, BinaryOperator::Divide);
+total_op!(c24_total_multiply, BinaryOperator::Multiply);
+total_op!(c24_total_modulo, BinaryOperator::Modulo);
+total_op!(c24_total_integer_divide, BinaryOperator::IntegerDivide);
+total_op!(c24_total_less_than, BinaryOperator::LessThan);
+total_op!(c24_total_equal, BinaryOperator::Equal);
+total_op!(c24_total_and, BinaryOperator::And);
+
+/// Unary + - NOT on every heap-free variant: a value or an error, never a panic.
+#[kani::proof]
+#[kani::unwind(8)]
+#[kani::stub(std::fmt::format, format_stub)]
+fn c24_total_unary() {
+    let x = any_scalar13();
+    let a = h::eval_unary_op(&UnaryOperator::Minus, &x);
+    let b = h::eval_unary_op(&UnaryOperator::Plus, &x);
+    let c = h::eval_unary_op(&UnaryOperator::Not, &x);
+    kani::cover!(a.is_err(), "a type error");
+    kani::cover!(c.is_ok(), "a truth value");
+    std::mem::forget((a, b, c, x));
+}
